@@ -165,11 +165,16 @@ def run_integrate(sc: Scenario, fns=None, checkpoint_lengths=None, return_states
         except _NoCrossCheck:
             out["engine_limit"] = True
         except Exception as e2:
-            # the real code raises natively as well - but only the SAME kind of exception confirms what the stub run saw; a
-            # different one (e.g. the native step refusing forward Euler on a branched cell, which the stubbed step never
-            # executes) leaves the stub-run exception an artefact of the engine
-            out["engine_limit"] = type(e2).__name__ != type(e).__name__
-            out["native_exception"] = f"{type(e2).__name__}: {str(e2)[:150]}"
+            # the real code raises natively as well - but that confirms what the stub run saw only if it is raised by the code
+            # under the engine; an exception from the native step (e.g. forward Euler refused on a branched cell, which the
+            # stubbed step never executes) leaves the stub-run exception an artefact of the engine
+            # ... decided by WHERE the native exception comes from: raised inside jaxley/modules/ (the code the stubs replace) it
+            # says nothing about integrate / jax_utils; raised in the code under the engine it confirms that the real code raises
+            import traceback as _tb
+            frames = _tb.extract_tb(e2.__traceback__)
+            in_stubbed_scope = any("/jaxley/modules/" in fr.filename for fr in frames)
+            out["engine_limit"] = bool(in_stubbed_scope)
+            out["native_exception"] = f"{type(e2).__name__}: {str(e2)[:150]}" + (" [raised inside jaxley/modules: outside the engine's scope]" if in_stubbed_scope else "")
     out["writes"] = list(m._writes)
     out["calls"] = list(m._calls)
     out["frame_ok"] = m.frame_ok()
